@@ -1,8 +1,8 @@
 #!/bin/bash
 # runs every thorough command once (VERIF_SEED given or 0) and reports exit codes and wall time
 for p in ${1:-C13 C16 C09 C14 C04 C07 C19 C17 C10 C18 C05 C02 C15 C06 C01 C11}; do
-  t0=$(date +%s); out=$(VERIF_NO_DET=1 ./check $p --tier thorough 2>&1); rc=$?; t1=$(date +%s)
+  t0=$(date +%s); out=$(VERIF_EVIDENCE_DIR=/dev/shm/thorough_ev VERIF_NO_DET=1 ./check $p --tier thorough 2>&1); rc=$?; t1=$(date +%s)
   echo "$p rc=$rc wall=$((t1-t0))s $(echo "$out" | tail -1 | cut -c1-160)"
   if [ $rc -ne 0 ]; then echo "$out" | grep -E "VIOLATION|signature|HARNESS" | head -8 | cut -c1-400; fi
 done
-git checkout -- evidence 2>/dev/null
+rm -rf /dev/shm/thorough_ev
